@@ -191,6 +191,11 @@ class CContext:
             # Calculate bit size:
             if field.bitsize:
                 bitsize = self.eval_expr(field.bitsize)
+                if bitsize < 0 or bitsize > self.sizeof(field.typ) * 8:
+                    self.error(
+                        "Bit-field width must be in the range of its type",
+                        field.bitsize.location,
+                    )
                 alignment = 1  # Bitfields are 1 bit aligned
             else:
                 bitsize = self.sizeof(field.typ) * 8
